@@ -560,6 +560,10 @@ func (b *Built) outcome(o *Obj, key string, t TRef) (reflect.Value, error) {
 	case "cancelwrap":
 		// a downstream call was cancelled or timed out; the request itself is alive
 		return reflect.Value{}, fmt.Errorf("downstream call of %s failed: %w", oc.Msg, cancelCause(oc.Msg))
+	case "cancel":
+		// context.Canceled itself, as a downstream call with a context of its own hands it back; the
+		// request is alive (corpus only: /repo must carry patches/C16-fix-1)
+		return reflect.Value{}, context.Canceled
 	case "custom":
 		// a user-defined SanitizedError whose public text differs from its Error() text
 		return reflect.Value{}, CustomErr{Detail: "detail of " + oc.Msg, Public: "public " + oc.Msg}
@@ -640,6 +644,9 @@ func FailText(kind, msg string) string {
 	}
 	if kind == "cancelwrap" {
 		return fmt.Sprintf("downstream call of %s failed: %s", msg, cancelCause(msg).Error())
+	}
+	if kind == "cancel" {
+		return context.Canceled.Error()
 	}
 	if kind == "custom" {
 		return "public " + msg // what SanitizedError() returns; Error() says "detail of ..."
